@@ -121,6 +121,7 @@ Fixpoint read_secs (f : bytes) (tbl : Z) (n : nat) (i : Z) : list (Z * Z) :=
   end.
 
 Definition align32 (addr align : Z) : Z :=
+  if pe_align_zero align then addr else
   let n := pe_align_rem addr align in
   if pe_align_needed n then (if pe_align_adds then wrap32 (addr + (align - n)) else addr) else addr.
 
